@@ -107,6 +107,25 @@ impl Monitor for DupMon {
                     }
                 }
             }
+            Ev::SendErr { actor: Actor::Task(t), data, .. } if self.attr.is_worker(*t) => {
+                // a copy the socket refused (e.g. ECONNREFUSED after the peer closed): still an emission attempt
+                bump(&mut self.probes, "copy_refused_by_socket");
+                match self.run.get_mut(t) {
+                    Some((d, cnt)) if **d == **data => {
+                        *cnt += 1;
+                        if *cnt > self.n + 1 {
+                            return self.close_run(*t);
+                        }
+                    }
+                    _ => {
+                        let v = self.close_run(*t);
+                        if matches!(rfc::decode(data), Some(Pkt::Data { .. }) | Some(Pkt::Ack(_))) {
+                            self.run.insert(*t, (data.clone(), 1));
+                        }
+                        return v;
+                    }
+                }
+            }
             Ev::RecvRet { task, .. } if Some(*task) == self.attr.listener => {
                 // a new request from the same client may legitimately get the same first reply again
                 self.listener_last.clear();
